@@ -338,6 +338,11 @@ def exFiles : List (List Blob) :=
 example : toPacks (build exFiles) = [7, 9] ∧ packReads 0 1000 (build exFiles) = [7, 9] ∧
     readsOf (packInfos 0 10 (build exFiles)) = [.pack 7 0 40, .file 0 8 8, .pack 9 0 40] := by decide
 
+/-- the first blob of pack 7 (lowest offset) is found in the existing file, a later blob of the same pack is not: the pack is
+still read and therefore in `to_packs()` (the seeded change C16-3 looked at the first entry of each pack only) -/
+example : toPacks (build [[⟨7, ⟨0, 40, 8⟩, true⟩, ⟨7, ⟨40, 40, 8⟩, false⟩, ⟨7, ⟨80, 40, 8⟩, true⟩]]) = [7] ∧
+    packReads 0 1000 (build [[⟨7, ⟨0, 40, 8⟩, true⟩, ⟨7, ⟨40, 40, 8⟩, false⟩, ⟨7, ⟨80, 40, 8⟩, true⟩]]) = [7] := by decide
+
 end plan
 
 end Rustic.Props.C14
